@@ -288,4 +288,44 @@ theorem filter_abort_table_full :
   have hid := (pid_of_wf hwf).2
   exact ⟨c', fin, hrun, endOnce_of_splitOutcome hid (body_wf hid hbody) hpad (body_wf hid hdb) hnbd ha hnb ho⟩
 
+/-! ## Non-vacuity -/
+namespace Example4
+open Fcgi.C01.Example Fcgi.C07E.Example Fcgi.C07U.Example Fcgi.C11F.Example Fcgi.C11F.Example2 Fcgi.C11F.Example3
+
+/-- `filter_abort_data_noread_e2e` applied to the wire of `Example3` (`Stdin("AB")`, terminator, `GetValues`,
+`Data("xyz")`, abort record, Data terminator), handler `[ret Complete(3)]`, KEEP_CONN.  Replayed, model
+driver = crate (`# case c11f-keep-iiip-split-Xcomplete:3-24,53,P,A`): `… HE(ok:complete:3) R64:53 W32:5 W27:P |1
+W27:27 W32:32 R64:P |2 R64:17 R64:W STALL`: `writeable()` buffers `"xyz"` (the read ends exactly behind that
+record), `record_boundary()` returns at once (`d₁ = dbody`, `s₂ = []`), full epilogue with status `3`; the
+abort record arrives later and goes to the next request parser.  With `rd = A`
+(`# case c11f-keep-iiip-Xcomplete:3-A`): content and abort record in one `parse` call, bare `EndRequest`. -/
+example : ∃ c' full d1 s2, runTask 20 (connS 64 10 fr3T [([.ret (.complete 3)], true)]) 0 none = (c', "STALL") ∧
+    fDc = d1 ++ s2 ∧ (full = false → s2 = []) ∧
+    c'.env.tr.wlog = owedActive 1 10 (gapPre 1 fS1 [] 0 d1) ++ epilogueFor 1 (.complete 3) full ++
+      idleOwed 10 (s2 ++ aR :: dE) ∧
+    c'.phase = .parseReq (track 64 10 (serAll (s2 ++ aR :: dE))) .reading ∧
+    hsCount c'.env.tr.events = 1 ∧ c'.env.tr.input = [] := by
+  obtain ⟨c', fin, hrun, ho⟩ := filter_abort_data_noread_e2e (p := preFK) (recs := recsFK) (sbody := fS1) (pad := [])
+    (res := 0) (dbody := fDc) (a := aR)
+    (post := dE) (b := 64) (mc := 10) (content := [65, 66]) (c2 := [120, 121, 122]) (st := .complete 3)
+    (more := []) (t := fr3T) (fuel := 20)
+    recsFK_wf rfl (fun q hq => by cases hq) (recsFK_fits _) fS1_body (fS1_fits _) (by decide) fDc_body fDc_fits
+    (by decide) aR_abort dE_wf (dE_fits _) (by decide) (by decide) rfl ⟨by decide, by decide, rfl, by decide⟩ rfl
+    (by decide) (by decide +kernel)
+  obtain ⟨full, d1, s2, hsp, hfs, hf⟩ := ho.final
+  rcases hf with ⟨_, hlog, hf⟩ | ⟨h, _⟩
+  · rcases hf with ⟨h, _⟩ | ⟨_, hfin, hph, hin, _⟩
+    · exact absurd h (by decide)
+    · subst hfin
+      refine ⟨c', full, d1, s2, hrun, hsp, hfs, ?_, hph, ho.one_handler.1, hin⟩
+      rw [hlog]
+      show [] ++ (owedPreamble preFK 10 recsFK ++ owedActive 1 10 (gapPre 1 fS1 [] 0 d1) ++
+        epilogueFor 1 (.complete 3) full ++ idleOwed 10 (s2 ++ aR :: dE)) = _
+      have h1 : owedPreamble preFK 10 recsFK = [] := by decide +kernel
+      rw [h1]
+      simp only [List.nil_append]
+  · exact absurd h (by decide)
+
+end Example4
+
 end Fcgi.C11F
